@@ -68,6 +68,9 @@ def run_mc(focus: str, depth: int, workdir: str) -> dict:
     never = [i for i in range(1, len(alpha) + 1) if i not in used]
     if never:
         common.machinery_failure(f"{cfg}: alphabet events never taken (vacuous): {never}")
+    summ["formulas_checked"] = re.findall(r"^(?:INVARIANT|PROPERTY) (\w+)", text, re.M)
+    summ["alphabet_events"] = len(alpha)
+    summ["initial_states"] = len(inits)
     return {"alphabet": alpha, "inits": inits, "covers": covers, "summary": summ}
 
 
